@@ -244,7 +244,7 @@ def gen_cases(ctx, count, n_range, k_range, weakly_modes, want=("ok",), q_per=6,
                 conds, queries = core.gen_tie_case(rng, n)
             else:
                 conds, queries = core.gen_base(rng, n, rng.randint(8, 10), depth=1, consts=0.0), []
-            target = rng.randint(8, 12)
+            target = rng.choice([8, 9, 10, 10, 11, 12])
             while len(conds) < target:
                 conds.append(core.gen_cond(rng, n, 1, 0.0))
             if rng.random() < 0.5:
@@ -293,6 +293,57 @@ def gen_cases(ctx, count, n_range, k_range, weakly_modes, want=("ok",), q_per=6,
         case["_info"] = info
         cases.append(case)
     return cases
+
+
+def _load_shipped(args):
+    kb, qf, m, weakly = args
+    import warnings
+
+    from parser.Wrappers import parse_belief_base, parse_queries
+
+    with warnings.catch_warnings():
+        warnings.simplefilter("ignore")
+        bb = parse_belief_base(kb)
+        qs = parse_queries(qf)
+    names = list(bb.signature)
+    base = [(k, (core.f_from_pysmt(c.consequence, names), core.f_from_pysmt(c.antecedence, names))) for k, c in bb.conditionals.items()]
+    queries = []
+    for k, c in list(qs.conditionals.items())[:m]:
+        try:
+            queries.append((k, (core.f_from_pysmt(c.consequence, names), core.f_from_pysmt(c.antecedence, names))))
+        except ValueError:
+            continue
+    case = mk_case(len(names), len(names), base, queries, weakly)
+    case["_info"] = classify(case)
+    case["_file"] = kb
+    return case
+
+
+def shipped_cases(ctx, count, atoms=(6, 8), weakly_modes=(False,), m=6, want=("ok",)):
+    """knowledge bases and query files shipped in examples/random_large (deeply nested formulas over 6-12 atoms, parsed by
+    the real parser), as cases for the answer-level comparison with the driver"""
+    import glob
+    import os
+
+    from check import pmap
+
+    ex = os.path.join(core.REPO, "examples", "random_large")
+    files = []
+    for kb in sorted(glob.glob(os.path.join(ex, "randomTest_*.cl"))):
+        base = os.path.basename(kb)[len("randomTest_"):-3]
+        a = int(base.split("_")[0])
+        q = os.path.join(ex, f"randomQueries_{base}.clq")
+        if atoms[0] <= a <= atoms[1] and os.path.exists(q):
+            files.append((kb, q))
+    ctx.rng.shuffle(files)
+    jobs = [(kb, q, m, ctx.rng.choice(list(weakly_modes))) for kb, q in files[:count * 4]]
+    out = []
+    for c in pmap(_load_shipped, jobs, getattr(ctx, "procs", 4)):
+        if c["_info"]["status"] in want and c["queries"]:
+            out.append(c)
+        if len(out) >= count:
+            break
+    return out
 
 
 def canonical_formulas(n=2):
